@@ -10,6 +10,8 @@ go build -o "$HERE/bin/instrument" ./cmd/instrument
 go build -tags verif -o "$HERE/bin/check" ./cmd/check
 (cd /repo && "$HERE/bin/instrument" /repo "$HERE/build/pools" "$HERE/harness/vsched_src/vsched.go" --pools-only)
 go build -tags "verif pools" -overlay "$HERE/build/pools/overlay.json" -o "$HERE/bin/check" ./cmd/check
+(cd /repo && "$HERE/bin/instrument" /repo "$HERE/build/seq" "$HERE/harness/vsched_src/vsched.go")
+go build -tags "verif pools" -overlay "$HERE/build/seq/overlay.json" -o "$HERE/bin/check" ./cmd/check
 (cd /repo && "$HERE/bin/instrument" /repo "$HERE/build/sched" "$HERE/harness/vsched_src/vsched.go")
 go build -tags "verif sched" -overlay "$HERE/build/sched/overlay.json" -o "$HERE/bin/check-sched" ./cmd/check
 go build -race -tags "verif sched" -overlay "$HERE/build/sched/overlay.json" -o "$HERE/bin/check-race" ./cmd/check
